@@ -95,6 +95,8 @@ def hypergraph_static(level="full"):
     A("H.add_edge([1, 3], idx='e')")
     A("H.add_edge([2, 3], idx=0, w=1)")
     A("H.add_edge([1, 2, 3], idx=5, w=2)")
+    A("H.add_edge([2, 3], idx=2.0)")  # equal to 2 as a key, but not an int
+    A("H.add_edge([1], idx=-1)")
     # bulk, five formats
     A("H.add_edges_from([[1, 2], [2, 3]])")
     A("H.add_edges_from([[1], [1, 2, 3]])")
@@ -288,6 +290,7 @@ def dihypergraph_static():
     A("H.add_edge(([1, 3], [3]), idx='e')")
     A("H.add_edge(([2], [3]), idx=0, w=1)")
     A("H.add_edge([[1, 2], [3]], idx=5, w=2)")
+    A("H.add_edge(([2], [3]), idx=2.0)")
     A("H.add_edges_from([([1], [2]), ([2, 3], [1])])")
     A("H.add_edges_from([([1], [1]), ([1], [1])])")
     A("H.add_edges_from([(([1], [2]), 0), (([2, 3], [1]), 2)])")
@@ -413,6 +416,7 @@ def simplicial_static():
     A("H.add_simplex([2, 3, 4], idx=2)")
     A("H.add_simplex([1, 3], idx='e', w=1)")
     A("H.add_simplex([1, 2, 3], idx=0, w=2)")
+    A("H.add_simplex([3, 4], idx=3.0)")
     for mo in (None, 0, 1, 2):
         kw = "" if mo is None else f", max_order={mo}"
         A(f"H.add_simplices_from([[1, 2, 3], [2, 3, 4]]{kw})")
